@@ -89,7 +89,7 @@ def contract_get_as_int(eng, state, what, token, arg_token, bitness, unsigned, d
     """Assumed at call sites; proved against the real body in contracts/c06.py unit get_as_int[*]."""
     eng.assumptions.add("callee contract assumed: metacommand_impl.get_as_int (A.1) - discharged by C06 unit get_as_int")
     v = eng.call(eng.getattr(arg_token, "resolve"), [state], {})
-    v = b_wait(eng, v)
+    v = contract_wait(eng, v)
     if isinstance(v, Dyn):
         if not eng.branch(v.is_int):
             eng.path.events.append(("error", "type-mismatch"))
@@ -123,8 +123,21 @@ def contract_get_as_int(eng, state, what, token, arg_token, bitness, unsigned, d
     return r
 
 
+def contract_wait(eng, v):
+    """deferred.wait in hybrid mode: the abstraction's Lazy yields its final value; real BaseDeferred objects (Promise, LinearPolynomial,
+    Concatenator) are awaited through their real wait() - the loop of the real function"""
+    for _ in range(64):
+        if isinstance(v, Lazy):
+            v = v.final
+        elif isinstance(v, Obj) and isinstance(v.cls, ClassV) and any(k.name == "BaseDeferred" for k in v.cls.mro()):
+            v = eng.call(eng.getattr(v, "wait"), [], {})
+        else:
+            return v
+    raise Unsupported("wait() did not terminate in 64 steps")
+
+
 def use_callee_contracts(eng, *names):
-    table = {"get_as_int": contract_get_as_int, "wait": b_wait}
+    table = {"get_as_int": contract_get_as_int, "wait": contract_wait}
     for n in names:
         eng.contracts[n] = table[n]
 
@@ -166,3 +179,52 @@ result = dict(metacommands=mc, instructions=ins, operators=ops)
         raise RuntimeError("native facts failed: %s" % res)
     _FACTS[tree] = res["result"]
     return res["result"]
+
+
+# ---------------------------------------------------------------- abstract view of (possibly lazy) values
+def view(eng, v):
+    """final value F(v): ints/bytes are themselves; Lazy -> final; ghost-annotated real objects -> their ghost; LinearPolynomial and
+    Concatenator structurally (justified by the deferred.py units: wait(x) == view(x))"""
+    if isinstance(v, Lazy):
+        return view(eng, v.final)
+    if isinstance(v, Obj) and isinstance(v.cls, ClassV):
+        if "_final" in v.attrs:
+            return v.attrs["_final"]
+        if "_sigma" in v.attrs:
+            return v.attrs["_sigma"]
+        n = v.cls.name
+        if n == "LinearPolynomial":
+            tot = v.attrs["constant_term"]
+            for k, c in v.attrs["coeffs"].items():
+                tot = tot + c * view(eng, k)
+            return tot
+        if n == "Concatenator":
+            parts = [zbytes(view(eng, p)) for p in v.attrs["lst"]]
+            return parts[0] if len(parts) == 1 else z3.Concat(*parts)
+        if n in ("Deferred", "SizedDeferred", "Promise") and v.attrs.get("settled") is True:
+            return view(eng, v.attrs["value"])
+        raise Unsupported("view of %r" % (v,))
+    if hasattr(v, "v"):
+        return v.v
+    return v
+
+
+def announced(eng, c):
+    """what the address accounting adds for chunk c: len(c) for ready bytes, view(c.length()) for deferred ones"""
+    if isinstance(c, (Lazy,)) or (isinstance(c, Obj) and isinstance(c.cls, ClassV)):
+        return view(eng, eng.call(eng.getattr(c, "length"), [], {}))
+    return slen(c)
+
+
+def sym_error_marker(eng, ident="error"):
+    """ghost: 'at least one error was reported in the iterations abstracted by a loop cut'"""
+    e = eng.fresh_bool("loop_err")
+    eng.path.events.append(("sym-error", ident, e))
+    return e
+
+
+def err_cond(eng):
+    """z3 condition 'an error-severity report was issued on this path' (concrete events and loop-abstracted markers)"""
+    conc = any(e[0] == "error" for e in eng.path.events)
+    syms = [e[2] for e in eng.path.events if e[0] == "sym-error"]
+    return z3.Or([z3.BoolVal(conc)] + syms)
